@@ -158,6 +158,10 @@ func (w *Walker) reflectModel(name string, callee *ssa.Function, args []*Term, r
 				return mkConst(constant.MakeString(reflect.StructTag(tag).Get(key)), rt)
 			}
 		}
+	case name == "errors.Is" && len(args) == 2:
+		if v, ok := errorsIs(args[0], args[1], 0); ok {
+			return mkBool(v)
+		}
 	case name == "strings.CutPrefix" && len(args) == 2:
 		if s, ok := constStr(args[0]); ok {
 			if pre, ok := constStr(args[1]); ok {
@@ -327,4 +331,76 @@ func lookupStdType(p *Program, pkg, name string) types.Type {
 		}
 	}
 	return nil
+}
+
+// errorsIs: errors.Is(err, target) for a target that is a package-level sentinel, when err's construction is
+// known on the path: nil is nothing; the sentinel is itself; errors.New / fmt.Errorf without %w make a new
+// error that is no sentinel; fmt.Errorf with %w is what it wraps (documented behaviour of package errors).
+func errorsIs(err, target *Term, depth int) (bool, bool) {
+	if err == nil || target == nil || depth > 4 {
+		return false, false
+	}
+	for err.Op == "iface" && len(err.Args) == 1 {
+		err = err.Args[0]
+	}
+	if err.IsNilConst() {
+		return false, true
+	}
+	if target.Op != "global" {
+		return false, false
+	}
+	if err.Op == "global" {
+		return err.Name == target.Name, err.Name == target.Name // another sentinel may wrap or define Is: undecided
+	}
+	if err.Op == "call" {
+		switch err.Name {
+		case "errors.New":
+			return false, true
+		case "fmt.Errorf":
+			f, ok := err.Args[0].StrVal()
+			if !ok {
+				return false, false
+			}
+			if !strings.Contains(f, "%w") {
+				return false, true
+			}
+			// the wrapped operands
+			if len(err.Args) == 2 && err.Args[1].Op == "sref" {
+				els := srefElems(err.Args[1])
+				vi := 0
+				anyTrue, allKnown := false, true
+				for i := 0; i+1 < len(f); i++ {
+					if f[i] != '%' {
+						continue
+					}
+					if f[i+1] == '%' {
+						i++
+						continue
+					}
+					// a verb: find its letter
+					j := i + 1
+					for j < len(f) && !((f[j] >= 'a' && f[j] <= 'z') || (f[j] >= 'A' && f[j] <= 'Z')) {
+						j++
+					}
+					if j < len(f) && f[j] == 'w' && vi < len(els) {
+						v, known := errorsIs(els[vi], target, depth+1)
+						if !known {
+							allKnown = false
+						} else if v {
+							anyTrue = true
+						}
+					}
+					vi++
+					i = j
+				}
+				if anyTrue {
+					return true, true
+				}
+				if allKnown {
+					return false, true
+				}
+			}
+		}
+	}
+	return false, false
 }
